@@ -161,6 +161,7 @@ struct Cfg {
     from: u64,
     to: u64,
     hang_ms: u64,
+    count_keys: Vec<String>, // keys whose distinct (key, value) leaves are counted (reporting only; empty: all)
     emit01: bool,
     emit07: bool,
     emit08: bool,
@@ -185,6 +186,7 @@ fn load_cfg(path: &str) -> Cfg {
         from: g("from", 0),
         to: g("to", u64::MAX),
         hang_ms: g("hang_ms", 10000),
+        count_keys: v.get("count_keys").and_then(|x| x.as_array()).map(|a| a.iter().filter_map(|k| k.as_str()).map(|k| k.to_string()).collect()).unwrap_or_default(),
         emit01: v.get("emit01").and_then(|x| x.as_bool()).unwrap_or(true),
         emit07: v.get("emit07").and_then(|x| x.as_bool()).unwrap_or(true),
         emit08: v.get("emit08").and_then(|x| x.as_bool()).unwrap_or(true),
@@ -902,6 +904,7 @@ struct Sinks {
     n08: u64,
     n08_msgs: u64,
     leaves_total: u64,
+    counted_leaves: u64,
     accepted: u64,
     nulls: u64,
     nulls_nonfinite: u64,
@@ -1099,7 +1102,10 @@ fn process(idx: u64, cls: &str, fill: &str, b: &[u8], cfg: &Cfg, sk: &mut Sinks,
                 all.push(val.clone());
             }
             if sk.seen_leaf.insert(h) {
-                sk.leafhash.write_all(&h.to_le_bytes()).unwrap();
+                if cfg.count_keys.is_empty() || cfg.count_keys.iter().any(|c| c == k) {
+                    sk.leafhash.write_all(&h.to_le_bytes()).unwrap();
+                    sk.counted_leaves += 1;
+                }
                 novel.push(val);
             }
         };
@@ -1151,6 +1157,7 @@ fn new_sinks(out: &str) -> Sinks {
         n08: 0,
         n08_msgs: 0,
         leaves_total: 0,
+        counted_leaves: 0,
         accepted: 0,
         nulls: 0,
         nulls_nonfinite: 0,
@@ -1199,7 +1206,7 @@ fn main() {
             std::fs::create_dir_all(&dir).unwrap();
             let out = dir.to_str().unwrap().to_string();
             let cfg = Cfg { shapes: String::new(), out: out.clone(), seed: 0, k_random: 0, field_rand: 0, windows: false, field_lite: false, win_df: vec![], wl_every: 0,
-                            from: 0, to: 0, hang_ms: 0, emit01: true, emit07: true, emit08: true, sample_every: 1 };
+                            from: 0, to: 0, hang_ms: 0, count_keys: vec![], emit01: true, emit07: true, emit08: true, sample_every: 1 };
             let mut sk = new_sinks(&out);
             for (i, h) in args[1..].iter().enumerate() {
                 let b = hex::decode(h).expect("hex");
@@ -1250,7 +1257,7 @@ fn main() {
                 "total_frames": total, "from": cfg.from, "to": cfg.to.min(total),
                 "events_c01": sk.n01, "events_c07": sk.n07, "events_c08": sk.n08,
                 "accepted": sk.accepted, "distinct_accepted_local": sk.seen_ok.len(),
-                "messages_flattened": sk.n08_msgs, "leaves_total": sk.leaves_total, "distinct_leaves_local": sk.seen_leaf.len(),
+                "messages_flattened": sk.n08_msgs, "leaves_total": sk.leaves_total, "distinct_leaves_local": sk.seen_leaf.len(), "counted_leaves_local": sk.counted_leaves,
                 "distinct_structures_local": sk.seen_struct.len(), "structures": sk.structures,
                 "nulls": sk.nulls, "nulls_nonfinite": sk.nulls_nonfinite,
                 "outcomes": sk.outcomes, "ser_errs": sk.ser_errs, "keys": keys, "samples": sk.samples,
